@@ -59,6 +59,43 @@ theorem run_gen (S : Conn → Prop) (Q : Conn → Prop) (T : Conn → String →
       exact h1
     · exact hQ c n f hS hsegs hq (by omega) hlen
 
+/-- **The executor** for stages `S`, no bound on the size of the input: every poll from a stage ends on a transient `Pending` in a
+stage, or has the property `Q` from which the end of the run (`T`) follows. -/
+theorem run_gen' (S : Conn → Prop) (Q : Conn → Prop) (T : Conn → String → Prop)
+    (hcong : ∀ c c', S c → c'.phase = c.phase → c'.scripts = c.scripts → c'.stop = c.stop →
+      c'.env.mutex = c.env.mutex → TrSame c.env.tr c'.env.tr → S c')
+    (hpoll : ∀ c, S c → (∃ c', Halts (6 * c.env.tr.input.length + 26) c c' .pending ∧ Link c c' ∧ S c' ∧
+      c'.env.tr.woken = true ∧ ans c'.env.tr < ans c.env.tr) ∨ Q c)
+    (hQ : ∀ (c : Conn) (n f : Nat), S c → c.env.segs = [] → Q (prePoll c n none) → ans c.env.tr ≤ f →
+      ∃ c'' fin, runTask (f + 1) c n none = (c'', fin) ∧ T c'' fin) :
+    ∀ (A : Nat) (c : Conn) (n fuel : Nat), S c → c.env.segs = [] → ans c.env.tr ≤ A → A + 1 ≤ fuel →
+      ∃ c'' fin, runTask fuel c n none = (c'', fin) ∧ T c'' fin := by
+  intro A
+  induction A with
+  | zero =>
+    intro c n fuel hS hsegs hA hf
+    obtain ⟨f, rfl⟩ : ∃ f, fuel = f + 1 := ⟨fuel - 1, by omega⟩
+    obtain ⟨hsame, hph, hsc, hstop, hmx, hsg, hwk⟩ := prePoll_same c n hsegs
+    have hans0 : ans (prePoll c n none).env.tr = ans c.env.tr := by unfold ans; rw [hsame.rd, hsame.wr]
+    rcases hpoll _ (hcong _ _ hS hph hsc hstop hmx hsame) with ⟨c', hh, hl, hS', hw, ha⟩ | hq
+    · omega
+    · exact hQ c n f hS hsegs hq (by omega)
+  | succ A ih =>
+    intro c n fuel hS hsegs hA hf
+    obtain ⟨f, rfl⟩ : ∃ f, fuel = f + 1 := ⟨fuel - 1, by omega⟩
+    obtain ⟨hsame, hph, hsc, hstop, hmx, hsg, hwk⟩ := prePoll_same c n hsegs
+    have hans0 : ans (prePoll c n none).env.tr = ans c.env.tr := by unfold ans; rw [hsame.rd, hsame.wr]
+    rcases hpoll _ (hcong _ _ hS hph hsc hstop hmx hsame) with ⟨c', hh, hl, hS', hw, ha⟩ | hq
+    · have hpoll' := hh.pollB (Nat.le_refl _)
+      have hsg' : c'.env.segs = [] := hl.segs.trans hsg
+      obtain ⟨c2, fin, h1, h2⟩ := ih c' (n + 1) f hS' hsg' (by omega) (by omega)
+      refine ⟨c2, fin, ?_, h2⟩
+      rw [runTask_succ, hpoll']
+      simp only [hw, if_true]
+      exact h1
+    · exact hQ c n f hS hsegs hq (by omega)
+
+
 /-! ## The aborted request -/
 
 /-- the stream context of the aborted Stdin stream -/
